@@ -20,12 +20,14 @@ pub struct Failure {
     pub at: usize,
     /// (callback class, n): a panic was injected at the n-th callback of that class during ops[at]
     pub inject: Option<(usize, u64)>,
+    /// not a replayable operation list: the witness is reproduced by running the same command again
+    pub rerun: bool,
 }
 
 impl Failure {
     pub fn to_json(&self) -> J {
         let mut j = J::obj().set("property", J::s(self.prop)).set("signature", J::s(&self.sig)).set("message", J::s(&self.msg))
-            .set("kind", J::s(if self.inject.is_some() { "inject" } else { "history" })).set("cfg", J::s(&self.cfg.to_text())).set("failing_event", J::us(self.at))
+            .set("kind", J::s(if self.rerun { "rerun" } else if self.inject.is_some() { "inject" } else { "history" })).set("cfg", J::s(&self.cfg.to_text())).set("failing_event", J::us(self.at))
             .set("ops", J::strs(self.ops.iter().cloned()));
         if let Some((c, n)) = self.inject { j.put("inject_class", J::s(CLASS_NAMES[c])); j.put("inject_n", J::u(n)); }
         j
@@ -49,7 +51,7 @@ impl RunOut {
             let kept = self.failures.iter().filter(|f| f.prop == v.prop).count();
             let same_sig = self.failures.iter().filter(|f| f.prop == v.prop && f.sig == v.sig).count();
             if kept < 12 && same_sig < 3 {
-                self.failures.push(Failure { prop: v.prop, sig: v.sig.clone(), msg: v.msg.clone(), cfg: cfg.clone(), ops: ops.iter().map(|o| o.to_text()).collect(), at, inject });
+                self.failures.push(Failure { prop: v.prop, sig: v.sig.clone(), msg: v.msg.clone(), cfg: cfg.clone(), ops: ops.iter().map(|o| o.to_text()).collect(), at, inject, rerun: false });
             }
         }
     }
